@@ -37,7 +37,7 @@ TIME_LIMIT = {"quick": 40, "thorough": 560}
 SHARDS = 16
 CODECS = ["null", "deflate", "bzip2", "xz"]
 REACH = {
-    "quick": {"fa_files_parsed": 600, "ref_files_read": 600, "files_with_empty_blocks": 50,
+    "quick": {"fa_files_appended": 300, "fa_files_parsed": 600, "ref_files_read": 600, "files_with_empty_blocks": 50,
               "header_multi_chunk": 50, "codec_key_absent": 50, "is_avro_checked": 500,
               "blocks_tiled": 500, "fixtures_compared": 10},
     "thorough": {"fa_files_parsed": 10000, "ref_files_read": 10000},
@@ -77,12 +77,24 @@ def fa_to_ref(sh, fa, rng, case, recs):
     info = {"dir": "fa->ref", "schema": js, "records": recs, "cfg": cfg}
     sh.case(h64("a", schema_shape(js), min(len(recs), 4), codec, interval), True)
     fo = io.BytesIO()
-    st, err = guard(fa.writer, fo, copy.deepcopy(js), list(recs), codec=codec, sync_interval=interval,
+    split = rng.randint(0, len(recs)) if rng.random() < 0.25 else None
+    first = list(recs) if split is None else list(recs[:split])
+    st, err = guard(fa.writer, fo, copy.deepcopy(js), first, codec=codec, sync_interval=interval,
                     metadata=dict(meta) if meta else None, sync_marker=marker,
                     codec_compression_level=rng.choice([None, 1, 9]) if codec == "deflate" else None)
     if st == "exc":
         sh.violation("writer-raised", exc_name(err), info)
         return
+    if split is not None:
+        # the rest is appended by a second call (stream left at its end): the file keeps its own
+        # header, codec and marker whatever the second call passes
+        kw = rng.choice([{}, {"codec": rng.choice(CODECS)}, {"codec": codec, "sync_interval": 1}])
+        cfg["append"] = {"at": split, "kw": kw}
+        st, err = guard(fa.writer, fo, copy.deepcopy(js), list(recs[split:]), **kw)
+        if st == "exc":
+            sh.violation("writer-raised", "appending to the file just written: %s" % exc_name(err), info)
+            return
+        sh.count("fa_files_appended")
     data = fo.getvalue()
     try:
         cont = RK.parse(data)
